@@ -146,6 +146,11 @@ def c05(tier):
                 tt = t
             j = J("k1_%s_r%d" % (nm, r), "C05_disk.c", ["-DK1", "-DFN=%d" % fn, "-DRES=%d" % r], unwind=max(r + 2, 4), us=DL, est=300 + 300 * r, mem="M", tier=tt, timeout=3400, core=(r <= 1), bound="every cell of res %d, k=1" % r)
             js += with_witness(j, tier=tt) if (r == 0 and fn == 1) else [j]
+        dl2 = dict(DL, **{"gridDisksUnsafe.0": 3})
+        for k in range(8):
+            dl2["harness.%d" % k] = 17
+        js += with_witness(J("k1_gridDisksUnsafe_r%d" % r, "C05_disk.c", ["-DDISKS2", "-DRES=%d" % r], unwind=max(r + 2, 4), us=dl2, est=300 + 300 * r, mem="M", tier=("quick" if r == 0 else "thorough"), timeout=3400, core=(r == 0), witness_expect=["disks error", "disks ok"],
+                             bound="every pair of origins of res %d, k=1" % r), tier=("quick" if r == 0 else "thorough"))[0:(2 if r == 0 else 1)]
         j = J("areNeighborCells_r%d" % r, "C05_disk.c", ["-DARENBR", "-DRES=%d" % r], unwind=max(r + 2, 4), us=DL, est=400 + 400 * r, mem="M", tier=t, timeout=3400, core=(r <= 1), bound="every pair of valid cells of res %d" % r)
         js += with_witness(j, tier=t) if r == 1 else [j]
     for r in (0, 2):
@@ -466,7 +471,7 @@ MEM_LOOPS = {"memcpy.0": 9, "memcpy.1": 9, "memcpy.2": 2, "memset.0": 9, "memset
       functions=["compactCells", "areNeighborCells", "gridDisk", "gridDiskDistances", "_gridDiskDistancesInternal", "polygonToCellsExperimental", "maxPolygonToCellsSizeExperimental", "iterInitPolygonCompact", "iterStepPolygonCompact", "iterDestroyPolygonCompact"],
       bounds={"quick": "every failure schedule (symbolic bit per allocation) of: compactCells on 3 arbitrary words; areNeighborCells on every neighbour pair of res 0-1; gridDisk/gridDiskDistances k=1 on every cell of res 0-1; polygonToCellsExperimental / maxPolygonToCellsSizeExperimental on triangles with 0-1 hole, any flags/resolution, geometry over-approximated",
               "thorough": "compactCells 6 words; neighbour pairs and disks at res 0-3"},
-      outside="k >= 2, larger sets and polygons; legacy polygonToCells (flood fill) - see DESIGN C17",
+      outside="k >= 2, larger sets and polygons; legacy polygonToCells beyond a size estimate of 2 cells and one seed",
       assumptions=["H3_ALLOC_PREFIX allocator = harness shim; a non-failing allocation returns a fresh block (CBMC malloc/calloc)", "S-GEO: cellToLatLng, cellToBoundary, latLngToCell, cellToBBox and the polygon predicates return arbitrary values in the polygon jobs"],
       stubs=["vp_malloc/vp_calloc/vp_free (S-ALLOC)", "S-GEO in the polygon jobs", "memcpy/memset loop models"])
 def c17(tier):
@@ -492,6 +497,13 @@ def c17(tier):
     PL = {"iterStepPolygonCompact.0": 5, "nextCell.0": 4, "polygonToCellsExperimental.0": 4, "maxPolygonToCellsSizeExperimental.0": 4, "maxPolygonToCellsSizeExperimental.1": 5, "bboxesFromGeoPolygon.0": 3, "bboxFromGeoLoop.0": 5, "iterStepChild.0": 5, "harness.0": 4, "setH3Index.0": 4}
     for nh in (0, 1):
       js += with_witness(al("polyexp_h%d" % nh, ["-DPOLYEXP", "-DNH=%d" % nh], unwind=5, us=PL, stubs=PS, est=200, mem="M", timeout=2400, bound="triangle + <=1 hole, res <= 2 (incl. negative), any flags, capacity 2, <= 3 iterator steps"))
+      PSL = {"h3Index": ["cellToLatLng", "cellToBoundary", "latLngToCell"], "polyfill": ["cellToBBox"], "polygon": ["pointInsidePolygon", "cellBoundaryInsidePolygon", "cellBoundaryCrossesPolygon"], "algos": ["maxPolygonToCellsSize", "_getEdgeHexagons", "gridDisk"]}
+      # loop bounds of the flood fill for a 2-slot table: holes 2, re-zero 3, probe <= numHexagons+2, ring 7, found <= 2, rounds <= 3
+      PLL = {"polygonToCells.0": 3, "polygonToCells.1": 4, "polygonToCells.2": 5, "polygonToCells.3": 8, "polygonToCells.4": 4, "polygonToCells.5": 4, "polygonToCells.6": 4}
+      PLL.update({"bboxesFromGeoPolygon.0": 3, "bboxFromGeoLoop.0": 5, "harness.0": 4, "harness.1": 4, "gridDisk.0": 8})
+      j = al("polylegacy_h%d" % nh, ["-DPOLYLEGACY", "-DNH=%d" % nh, "-DNHEX=2"], unwind=5, us=PLL, stubs=PSL, est=100, mem="M", timeout=2400, bound="legacy polygonToCells: triangle + %d hole(s), size estimate 2, edge tracer seeds nothing (allocation prologue, tracer errors, epilogue), every failure schedule" % nh)
+      js += with_witness(j) if nh == 0 else [j]
+      js.append(al("polylegacy_seed_h%d" % nh, ["-DPOLYLEGACY", "-DSEED", "-DNH=%d" % nh, "-DNHEX=2"], unwind=5, us=PLL, stubs=PSL, est=900, mem="X", timeout=3400, tier="thorough", core=False, bound="as above with one seed cell and arbitrary rings (flood fill of a 2-slot table)"))
       js += with_witness(al("polymax_h%d" % nh, ["-DPOLYMAX", "-DNH=%d" % nh], unwind=5, us=PL, stubs=PS, est=400, mem="L", timeout=2400, tier="thorough", bound="triangle + <=1 hole, res <= 2 (incl. negative), any flags, <= 3 iterator steps"))
     return js
 
@@ -580,9 +592,9 @@ CPL = dict({"compactCells.%d" % i: 9 for i in range(6)}, **{"compactCells.6": 3,
 
 @prop("C06",
       functions=["compactCells", "uncompactCells", "uncompactCellsSize", "cellToChildren", "cellToParent", "isPentagon", "_hasChildAtRes", "iterInitParent", "iterStepChild"],
-      bounds={"quick": "3 arbitrary distinct valid cells of res 1,5,15 in any order (no compaction possible): lossless round trip; complete child family of ANY parent of res 0,4,14 in any rotation, alone and with one foreign cell: compacts to the parent; uncompactCells capacity: 2 cells of res 0,7,14 x any capacity 0-14 x any target resolution <= res+1",
-              "thorough": "5 distinct cells; families at every parent resolution 0-14"},
-      outside="fully symbolic sets of >= 6 cells (hash-probe arithmetic; SAT-hard, DESIGN 2.4), more than one compaction round, sets of 10^5 cells",
+      bounds={"quick": "3 arbitrary distinct valid cells of res 1,5,15 in any order (no compaction possible): lossless round trip; uncompactCells capacity: 2 cells of res 0,7,14 x any capacity 0-14 x any target resolution <= res+1",
+              "thorough": "5 distinct cells"},
+      outside="every set that actually compacts (>= 6 cells): the hash-probe arithmetic over symbolic array indexes exhausts 30 GB already for one complete family of a symbolic parent (probed twice); more than one compaction round; sets of 10^5 cells. What is decided is the no-compaction path, the capacity/resolution clauses of uncompactCells and (C17/C12) the memory behaviour.",
       assumptions=["own loop models of memcpy/memset (CBMC's built-ins mishandle symbolic lengths)"],
       stubs=["memcpy, memset -> loop models"])
 def c06(tier):
@@ -591,21 +603,6 @@ def c06(tier):
         j = J("small3_r%d" % r, "C06_compact.c", ["-DSMALL", "-DN=3", "-DRES=%d" % r], unwind=17, us=CPL, est=40, mem="M", bound="3 distinct valid cells of res %d" % r)
         js += with_witness(j) if r == 5 else [j]
     js.append(J("small5_r3", "C06_compact.c", ["-DSMALL", "-DN=5", "-DRES=3"], unwind=17, us=CPL, est=200, mem="M", tier="thorough", timeout=2400, bound="5 distinct valid cells of res 3"))
-    for r in range(1, 16):
-        t = "thorough"
-        if r not in (1, 2, 15):
-            continue
-        FL = dict(CPL, **{"cellToParent.0": 3, "spec_parent.0": 17, "spec_is_pentagon.0": 17, "spec_valid_cell.0": 17})
-        for k in range(9):
-            FL["harness.%d" % k] = 9
-        for pent in (0, 1):
-            sfx = "p" if pent else "h"
-            j = J("family%s_r%d" % (sfx, r), "C06_compact.c", ["-DFAMILY", "-DRES=%d" % r, "-DPENT=%d" % pent], unwind=max(r + 2, 3), us=FL, est=1000, mem="X", tier=t, timeout=3400, core=False,
-                  bound="children of any %s parent of res %d, any rotation" % ("pentagon" if pent else "hexagon", r - 1))
-            js += with_witness(j, tier=t) if r == 1 else [j]
-            j = J("familyx%s_r%d" % (sfx, r), "C06_compact.c", ["-DFAMILY", "-DEXTRA", "-DRES=%d" % r, "-DPENT=%d" % pent], unwind=max(r + 2, 3), us=FL, est=1200, mem="X", tier=t, timeout=3400, core=False,
-                  bound="children of any %s parent of res %d + one foreign cell" % ("pentagon" if pent else "hexagon", r - 1))
-            js.append(j)
     for r in (0, 7, 14):
         j = J("cap_r%d" % r, "C06_compact.c", ["-DCAP", "-DRES=%d" % r], unwind=17, us=CPL, est=60, mem="M", bound="2 valid cells of res %d, capacity 0-14, target res <= %d" % (r, r + 1))
         js += with_witness(j) if r == 7 else [j]
